@@ -821,8 +821,14 @@ fn main() {
 
     for path in &files {
         let text = fs::read_to_string(path).unwrap();
-        let Ok(program) = ProgramParser::new().parse(&text) else { continue };
         let base = path.file_stem().unwrap().to_string_lossy().to_string();
+        let Ok(program) = ProgramParser::new().parse(&text) else {
+            if base.starts_with("n_") {
+                // a template that does not even parse tests nothing: reported by the driver as a machinery problem
+                negatives_verdicts.push(format!("{base}: ParseError"));
+            }
+            continue;
+        };
         n_programs += 1;
         for linear in if thorough { vec![true, false] } else { vec![true] } {
             // every negative template (n_*) is an invalid program by construction: the real pipeline must reject it
